@@ -222,6 +222,12 @@ func C08(t *rapid.T) *world.Scenario {
 		case 2:
 			rq.Cond = &world.Reply{Kind: "resp", Status: 200, Body: world.Body{Len: 20}, Header: [][2]string{H("Date", "$T+0"), H("Cache-Control", "no-store")}}
 		}
+		if Pct(t, lbl+"-reuse", 15) {
+			// the caller reuses its request object once it has closed the body (possibly while
+			// a background validation is still in flight)
+			rq.ReuseReq = true
+			rq.ReuseDelayNs = Pick(t, lbl+"-reused", int64(0), 0, Sec/2)
+		}
 		if rq.Cond != nil && Pct(t, lbl+"-bglat", 30) {
 			// a slow answer: with stale-while-revalidate the validation is still in flight
 			// while the following requests (other variants) are served
@@ -315,14 +321,16 @@ func C06(t *rapid.T) *world.Scenario {
 			}
 		case 1: // response no-store
 			fresh()
-			cc = append(cc, "no-store")
+			// (a directive is identified by its token: an argument it does not define does not
+			// make it another directive, RFC 9111 §5.2)
+			cc = append(cc, Pick(t, lbl+"-nsv", "no-store", "no-store", "no-store", "no-store", "no-store=1", `no-store="true"`, "No-Store"))
 			if Pct(t, lbl+"-conncc", 20) {
 				// the directive field itself nominated as hop-by-hop: it still governs this hop
 				rp.Header = append(rp.Header, H("Connection", Pick(t, lbl+"-connv", "Cache-Control", "cache-control, X-Other", "Expires, Cache-Control")))
 			}
 		case 2: // request no-store
 			fresh()
-			rq.Header = append(rq.Header, H("Cache-Control", Pick(t, lbl+"-rns", "no-store", "no-store, max-age=0", "max-stale=5, no-store", `ext="C:\\", no-store`, "e1, e2, e3, e4, e5, e6, e7, e8, e9, e10, e11, e12, e13, e14, e15, e16, e17, no-store")))
+			rq.Header = append(rq.Header, H("Cache-Control", Pick(t, lbl+"-rns", "no-store", "no-store, max-age=0", "max-stale=5, no-store", `ext="C:\\", no-store`, "no-store=1", `no-store="yes"`, "e1, e2, e3, e4, e5, e6, e7, e8, e9, e10, e11, e12, e13, e14, e15, e16, e17, no-store")))
 			if Pct(t, lbl+"-bgfull", 50) {
 				// if an earlier entry is served stale under stale-while-revalidate, the refresh
 				// fetched for this no-store request must not be stored either
@@ -428,6 +436,11 @@ func C07(t *rapid.T) *world.Scenario {
 	if Pct(t, "sleep0", 30) {
 		sc.Steps = append(sc.Steps, SleepStep(Seconds(t, "sleep0d")%3600))
 	}
+	if Pct(t, "lostentry", 12) {
+		// a stored entry disappears behind the cache's back (LRU clean-up of the cache
+		// directory, the maintenance API) while the index still refers to it
+		sc.Steps = append(sc.Steps, world.Step{Op: "corrupt", Corrupt: &world.Corrupt{KeySel: rapid.IntRange(0, 7).Draw(t, "lostkey"), Kind: "delete"}})
+	}
 	nunsafe := rapid.IntRange(1, 2).Draw(t, "nunsafe")
 	for i := 0; i < nunsafe; i++ {
 		lbl := "u" + itoa(int64(i))
@@ -449,6 +462,17 @@ func C07(t *rapid.T) *world.Scenario {
 		}
 		if l := Pick(t, lbl+"-cloc", locs...); l != "" {
 			rp.Header = append(rp.Header, H("Content-Location", l))
+		}
+		if Pct(t, lbl+"-ctxdone", 12) {
+			// the caller's context ends before or while the origin answers - and the origin
+			// answers all the same: the write happened, so the stored responses are invalid
+			rp.IgnoreCtx = true
+			if Pct(t, lbl+"-ctxpre", 50) {
+				rq.CancelNs = -1
+			} else {
+				rp.LatencyNs = Sec
+				rq.CancelNs = Sec / 2
+			}
 		}
 		rq.Uncond = rp
 		sc.Steps = append(sc.Steps, ReqStep(rq))
